@@ -580,7 +580,7 @@ Definition check_expected (p : param) (v : pvalue) : result unit :=
 
 (* the parameter loop of Decoder.process_section.  [start_len] is the number of
    unread bits when the section started, so position - BITPOS_START =
-   start_len - length r.  [env] are this section's values so far (newest first). *)
+   start_len - length r.  [env] are this section's values so far, in parameter order. *)
 Fixpoint decode_params (all ps : list param) (start_len : nat)
     (env props : list (pname * pvalue)) (r : reader)
   : result (list (pname * pvalue) * list (pname * pvalue) * reader) :=
@@ -603,7 +603,7 @@ Fixpoint decode_params (all ps : list param) (start_len : nat)
         end in
       let props1 := add_prop p v props in
       let* _ := check_expected p v in
-      decode_params all ps' start_len ((p_name p, v) :: env) props1 r1
+      decode_params all ps' start_len (env ++ [(p_name p, v)]) props1 r1
   end.
 
 (* Decoder.process_section *)
@@ -619,7 +619,7 @@ Definition decode_section (c : sconfig) (props : list (pname * pvalue)) (r : rea
       else if (nbits_unread <? 0)%Z then Err ELib
       else Ok r1
     else Ok r1 in
-  Ok (mkSec (s_index c) (s_params c) (start_len - length r2) (rev env), props1, r2).
+  Ok (mkSec (s_index c) (s_params c) (start_len - length r2) env, props1, r2).
 
 Fixpoint decode_sections (defs : list sconfig) (info_only ignore_exp : bool) (idxs : list N)
     (props : list (pname * pvalue)) (secs : list section) (r : reader)
